@@ -1,9 +1,13 @@
-"""Trusted contract of scipy.spatial.transform.Rotation: the 3x3-matrix view.
+"""Trusted contract of scipy.spatial.transform.Rotation.
 
-A RotV holds one 3x3 matrix (single) or a list of them (batch of concrete length).  Matrices act on
-scipy's (x, y, z)-ordered vectors exactly as scipy documents: ``apply(v) = M v``, ``(p * q).apply(v) =
-p.apply(q.apply(v))``, ``inv()`` is the transpose.  The SO(3) type invariant (M^T M = I, det M = 1) of
-symbolic inputs is an *optional hypothesis group* ("so3"): obligations are first tried without it.
+A RotV is a single rotation (n is None) or a batch of n rotations (n an int or a symbolic Int); ``matf(i)`` gives
+the 3x3 matrix of row i (a nested list of scalars; i may be symbolic).  Matrices act on scipy's (x, y, z)-ordered
+vectors exactly as scipy documents: ``apply(v) = M v``, ``(p * q).apply(v) = p.apply(q.apply(v))``, ``inv()`` is the
+transpose.  Quaternions (x, y, z, w): ``from_quat(q)`` has the matrix M(q)/|q|^2 (scipy normalises), ``as_quat`` of a
+rotation built from quaternions returns them normalised; of a rotation known only by its matrix it is an
+uninterpreted unit quaternion q with M(q) = matrix (existence is a fact about SO(3)).  Rotation vectors use the
+uninterpreted pair RV / RVinv with the round-trip axiom and (as an explicit lemma instance in contracts) equivariance.
+The SO(3) type invariant of symbolic inputs is an *optional hypothesis group* ("so3").
 """
 from __future__ import annotations
 
@@ -17,8 +21,12 @@ from . import arrays as A
 from .arrays import SArr
 
 
-def _mm(a, b):
-    return [[sum_((a[i][k] * b[k][j]) for k in range(3)) for j in range(3)] for i in range(3)]
+class _Unset:
+    def __repr__(self):
+        return "UNSET"
+
+
+_UNSET = _Unset()
 
 
 def sum_(it):
@@ -26,6 +34,10 @@ def sum_(it):
     for x in it:
         r = V.arith("+", r, x)
     return r
+
+
+def _mm(a, b):
+    return [[sum_(V.arith("*", a[i][k], b[k][j]) for k in range(3)) for j in range(3)] for i in range(3)]
 
 
 def _tr(a):
@@ -39,114 +51,289 @@ def _mv(a, v):
 IDENT = [[1, 0, 0], [0, 1, 0], [0, 0, 1]]
 
 
+def quat_to_matrix(q):
+    """scipy convention q = (x, y, z, w); exact for any non-zero q (division by |q|^2)"""
+    x, y, z, w = q
+    n2 = x * x + y * y + z * z + w * w
+    m = [[w * w + x * x - y * y - z * z, 2 * (x * y - z * w), 2 * (x * z + y * w)],
+         [2 * (x * y + z * w), w * w - x * x + y * y - z * z, 2 * (y * z - x * w)],
+         [2 * (x * z - y * w), 2 * (y * z + x * w), w * w - x * x - y * y + z * z]]
+    if not is_sym(n2) and n2 == 1:
+        return m
+    return [[V.arith("/", m[i][j], n2) for j in range(3)] for i in range(3)]
+
+
+def so3_constraints(m):
+    out = []
+    mt = _tr(m)
+    p = _mm(mt, m)
+    q = _mm(m, mt)
+    for i in range(3):
+        for j in range(i, 3):
+            out.append(V.compare("==", p[i][j], 1 if i == j else 0))
+            out.append(V.compare("==", q[i][j], 1 if i == j else 0))
+    det = (m[0][0] * (m[1][1] * m[2][2] - m[1][2] * m[2][1])
+           - m[0][1] * (m[1][0] * m[2][2] - m[1][2] * m[2][0])
+           + m[0][2] * (m[1][0] * m[2][1] - m[1][1] * m[2][0]))
+    out.append(V.compare("==", det, 1))
+    return out
+
+
 class RotV:
     _pyvc_native = True
 
-    def __init__(self, mats, single):
-        self.mats = mats          # list of 3x3 nested lists
-        self.single = single
+    def __init__(self, quat=None, normalize=True, copy=True, scalar_first=False, *, _n=_UNSET, _matf=None,
+                 _quatf=None, _unit=False):
+        if quat is not None:
+            r = RotV.from_quat(quat)
+            self.n, self.matf, self.quatf, self.unit = r.n, r.matf, r.quatf, r.unit
+            return
+        self.n = None if _n is _UNSET else _n
+        self.matf = _matf
+        self.quatf = _quatf       # row -> (x, y, z, w) as given at construction (not necessarily unit)
+        self.unit = _unit
 
-    # constructors ----------------------------------------------------------
+    @property
+    def single(self):
+        return self.n is None
+
+    def row(self, i):
+        return self.matf(0 if self.n is None else i)
+
+    # constructors -------------------------------------------------------------
     @staticmethod
     def identity(num=None):
-        if num is None:
-            return RotV([IDENT], True)
-        return RotV([IDENT for _ in range(num)], False)
+        return RotV(_n=_UNSET if num is None else num, _matf=lambda i: IDENT)
 
     @staticmethod
     def from_matrix(m):
         m = A.from_nested(m)
         if m.ndim == 2:
-            return RotV([[[m.at((i, j)) for j in range(3)] for i in range(3)]], True)
-        n = m.shape[0]
-        return RotV([[[m.at((r, i, j)) for j in range(3)] for i in range(3)] for r in range(n)], False)
+            f = m.snapshot()
+            return RotV(_matf=lambda i: [[f((a, b)) for b in range(3)] for a in range(3)])
+        f = m.snapshot()
+        return RotV(_n=m.shape[0], _matf=lambda i: [[f((i, a, b)) for b in range(3)] for a in range(3)])
 
     @staticmethod
-    def symbolic(name, path=None, so3=True):
-        m = [[Sym(z3.Real(f"{name}_m{i}{j}")) for j in range(3)] for i in range(3)]
-        r = RotV([m], True)
-        if path is not None and so3:
-            for c in r.so3_constraints():
-                path.assume_optional("so3", c)
-        return r
+    def from_quat(quat, scalar_first=False):
+        q = A.from_nested(quat)
+        f = q.snapshot()
+        if q.ndim == 1:
+            qf = lambda i: tuple(f((c,)) for c in range(4))
+            return RotV(_matf=lambda i: quat_to_matrix(qf(0)), _quatf=qf)
+        qf = lambda i: tuple(f((i, c)) for c in range(4))
+        return RotV(_n=q.shape[0], _matf=lambda i: quat_to_matrix(qf(i)), _quatf=qf)
+
+    @staticmethod
+    def symbolic(name, path=None, so3=True, n=_UNSET):
+        """symbolic single rotation (matrix entries name_mab) or batch (uninterpreted functions of the row)"""
+        if n is _UNSET:
+            m = [[Sym(z3.Real(f"{name}_m{i}{j}")) for j in range(3)] for i in range(3)]
+            r = RotV(_matf=lambda i: m)
+            if path is not None and so3:
+                for c in so3_constraints(m):
+                    path.assume_optional("so3", c)
+            return r
+        fs = [[z3.Function(f"{name}_m{i}{j}", z3.IntSort(), z3.RealSort()) for j in range(3)] for i in range(3)]
+        seen = set()
+
+        def matf(i):
+            m = [[Sym(fs[a][b](V.lift(i))) for b in range(3)] for a in range(3)]
+            p = V.PATH[0]
+            key = V.lift(i).get_id()
+            if p is not None and so3 and (id(p), key) not in seen:
+                seen.add((id(p), key))
+                for c in so3_constraints(m):
+                    p.assume_optional("so3", c)
+            return m
+        return RotV(_n=n, _matf=matf)
 
     def so3_constraints(self):
-        out = []
-        for m in self.mats:
-            mt = _tr(m)
-            p = _mm(mt, m)
-            q = _mm(m, mt)
-            for i in range(3):
-                for j in range(i, 3):
-                    out.append(V.compare("==", p[i][j], 1 if i == j else 0))
-                    out.append(V.compare("==", q[i][j], 1 if i == j else 0))
-            det = (m[0][0] * (m[1][1] * m[2][2] - m[1][2] * m[2][1])
-                   - m[0][1] * (m[1][0] * m[2][2] - m[1][2] * m[2][0])
-                   + m[0][2] * (m[1][0] * m[2][1] - m[1][1] * m[2][0]))
-            out.append(V.compare("==", det, 1))
-        return out
+        return so3_constraints(self.row(0))
 
-    # scipy API --------------------------------------------------------------
+    # scipy API ------------------------------------------------------------------
     def as_matrix(self):
-        if self.single:
-            return A.from_nested(self.mats[0], "real")
-        return A.from_nested(self.mats, "real")
+        if self.n is None:
+            return A.from_nested(self.row(0), "real")
+        mf = self.matf
+        return SArr((self.n, 3, 3), lambda idx: _sel2(mf(idx[0]), idx[1], idx[2]), "real")
 
     def inv(self):
-        return RotV([_tr(m) for m in self.mats], self.single)
+        mf = self.matf
+        return RotV(_n=_UNSET if self.n is None else self.n, _matf=lambda i: _tr(mf(i)))
+
+    def _bn(self, other):
+        if self.n is None and other.n is None:
+            return _UNSET
+        if self.n is None:
+            return other.n
+        return self.n
 
     def __mul__(self, other):
         if not isinstance(other, RotV):
             return NotImplemented
-        if len(self.mats) == len(other.mats):
-            return RotV([_mm(a, b) for a, b in zip(self.mats, other.mats)], self.single and other.single)
-        if len(self.mats) == 1:
-            return RotV([_mm(self.mats[0], b) for b in other.mats], False)
-        if len(other.mats) == 1:
-            return RotV([_mm(a, other.mats[0]) for a in self.mats], False)
-        raise Unsupported("Rotation product of incompatible batch sizes")
+        a, b = self, other
+        return RotV(_n=self._bn(other), _matf=lambda i: _mm(a.row(i), b.row(i)))
 
     def apply(self, vectors, inverse=False):
         v = A.from_nested(vectors)
-        mats = [(_tr(m) if inverse else m) for m in self.mats]
+        vf = v.snapshot()
+        me = self
+
+        def mat(i):
+            m = me.row(i)
+            return _tr(m) if inverse else m
         if v.ndim == 1:
-            vec = [v.at((k,)) for k in range(3)]
-            if self.single or len(mats) == 1 and self.single:
-                return A.from_nested(_mv(mats[0], vec), "real")
-            return A.from_nested([_mv(m, vec) for m in mats], "real")
-        n = v.shape[0]
-        if not isinstance(n, int):
-            raise Unsupported("Rotation.apply on a symbolic-length batch")
-        rows = [[v.at((r, k)) for k in range(3)] for r in range(n)]
-        if len(mats) == 1:
-            return A.from_nested([_mv(mats[0], row) for row in rows], "real")
-        if len(mats) != n:
-            raise Unsupported("Rotation.apply batch mismatch")
-        return A.from_nested([_mv(m, row) for m, row in zip(mats, rows)], "real")
+            vec = [vf((k,)) for k in range(3)]
+            if self.n is None:
+                return A.from_nested(_mv(mat(0), vec), "real")
+            return SArr((self.n, 3), lambda idx: _sel1(_mv(mat(idx[0]), vec), idx[1]), "real")
+        n = v.shape[0] if self.n is None else self.n
+        return SArr((n, 3), lambda idx: _sel1(_mv(mat(idx[0]), [vf((idx[0], k)) for k in range(3)]), idx[1]), "real")
 
     def __len__(self):
-        if self.single:
+        if self.n is None:
             raise TypeError("Single rotation has no len().")
-        return len(self.mats)
+        return self.n
 
     def __getitem__(self, k):
-        if self.single:
+        if self.n is None:
             raise TypeError("Single rotation is not subscriptable.")
+        mf, qf = self.matf, self.quatf
         if isinstance(k, slice):
-            return RotV(self.mats[k], False)
-        if isinstance(k, int):
-            return RotV([self.mats[k]], True)
-        raise Unsupported("Rotation index")
+            start, length, step = A.norm_slice(k, self.n)
+            rm = lambda i: V.arith("+", start, i if step == 1 else V.arith("*", i, step))
+            return RotV(_n=length, _matf=lambda i: mf(rm(i)), _quatf=(lambda i: qf(rm(i))) if qf else None,
+                        _unit=self.unit)
+        if isinstance(k, SArr) and k.dtype != "bool":
+            kf = k.snapshot()
+            rm = lambda i: A.norm_index(kf((i,)), self.n)
+            return RotV(_n=k.shape[0], _matf=lambda i: mf(rm(i)), _quatf=(lambda i: qf(rm(i))) if qf else None,
+                        _unit=self.unit)
+        if V.is_num(k):
+            kk = A.norm_index(k, self.n)
+            return RotV(_matf=lambda i: mf(kk), _quatf=(lambda i: qf(kk)) if qf else None, _unit=self.unit)
+        raise Unsupported("Rotation index of this kind")
 
     def __iter__(self):
-        if self.single:
+        if self.n is None:
             raise TypeError("Single rotation is not iterable")
-        return iter([RotV([m], True) for m in self.mats])
+        if not isinstance(self.n, int):
+            raise Unsupported("iteration over a symbolic-length Rotation")
+        return iter([self[i] for i in range(self.n)])
+
+    # quaternion view -------------------------------------------------------------------
+    def as_quat(self, canonical=False, scalar_first=False):
+        me = self
+        if self.quatf is not None and self.unit:
+            qf = self.quatf
+        elif self.quatf is not None:
+            raw = self.quatf
+
+            def qf(i):
+                q = raw(i)
+                n2 = sum_(V.arith("*", c, c) for c in q)
+                if not is_sym(n2) and n2 == 1:
+                    return q
+                from .stubs import _sqrt
+                nrm = _sqrt(n2)
+                return tuple(V.arith("/", c, nrm) for c in q)
+        else:
+            # uninterpreted unit quaternion of a matrix: Q_c(m00..m22) with M(Q(m)) = m and |Q| = 1 (lazy instances)
+            def qf(i):
+                m = me.row(i)
+                flat = [V.lift(V.to_real(x) if is_sym(x) else Fraction(x)) for r_ in m for x in r_]
+                q = tuple(Sym(_QF[c](*flat)) for c in range(4))
+                p = V.PATH[0]
+                if p is not None:
+                    mq = quat_to_matrix(q)
+                    p.assume(V.compare("==", sum_(V.arith("*", c, c) for c in q), 1))
+                    for a in range(3):
+                        for b in range(3):
+                            p.assume(V.compare("==", mq[a][b], m[a][b]))
+                return q
+        if self.n is None:
+            return A.from_nested(list(qf(0)), "real")
+        return SArr((self.n, 4), lambda idx: _sel1(list(qf(idx[0])), idx[1]), "real")
+
+    # rotation-vector view (uninterpreted, with the round-trip axiom as lazy instances) ------------------
+    def as_rotvec(self, degrees=False):
+        me = self
+
+        def rv(i):
+            m = me.row(i)
+            flat = [V.lift(V.to_real(x) if is_sym(x) else Fraction(x)) for r_ in m for x in r_]
+            v = tuple(Sym(_RVINV[c](*flat)) for c in range(3))
+            p = V.PATH[0]
+            if p is not None:
+                # from_rotvec(as_rotvec(R)) == R
+                back = [[Sym(_RV[a][b](*[V.lift(x) for x in v])) for b in range(3)] for a in range(3)]
+                for a in range(3):
+                    for b in range(3):
+                        p.assume(V.compare("==", back[a][b], m[a][b]))
+            return v
+        if self.n is None:
+            return A.from_nested(list(rv(0)), "real")
+        return SArr((self.n, 3), lambda idx: _sel1(list(rv(idx[0])), idx[1]), "real")
+
+    @staticmethod
+    def from_rotvec(rotvec, degrees=False):
+        v = A.from_nested(rotvec)
+        f = v.snapshot()
+
+        def mat(vec):
+            args = [V.lift(V.to_real(x) if is_sym(x) else Fraction(x)) for x in vec]
+            return [[Sym(_RV[a][b](*args)) for b in range(3)] for a in range(3)]
+        if v.ndim == 1:
+            return RotV(_matf=lambda i: mat([f((k,)) for k in range(3)]))
+        return RotV(_n=v.shape[0], _matf=lambda i: mat([f((i, k)) for k in range(3)]))
+
+    @staticmethod
+    def concatenate(rots):
+        rots = list(rots)
+        if not all(isinstance(r.n, int) or r.n is None for r in rots):
+            raise Unsupported("Rotation.concatenate of symbolic-length batches")
+        rows = []
+        for r in rots:
+            if r.n is None:
+                rows.append((r, 0))
+            else:
+                rows.extend((r, i) for i in range(r.n))
+        return RotV(_n=len(rows), _matf=lambda i: rows[i][0].row(rows[i][1]) if isinstance(i, int) else _unsup())
+
+
+def _unsup():
+    raise Unsupported("symbolic row of a concatenated Rotation")
+
+
+_R9 = [z3.RealSort()] * 9
+_QF = [z3.Function(f"QuatOf_{c}", *_R9, z3.RealSort()) for c in range(4)]
+_RVINV = [z3.Function(f"RotvecOf_{c}", *_R9, z3.RealSort()) for c in range(3)]
+_RV = [[z3.Function(f"FromRotvec_{a}{b}", z3.RealSort(), z3.RealSort(), z3.RealSort(), z3.RealSort())
+        for b in range(3)] for a in range(3)]
+
+
+def _sel1(items, k):
+    if isinstance(k, int):
+        return items[k]
+    r = items[-1]
+    for j in range(len(items) - 2, -1, -1):
+        r = V.ite(V.compare("==", k, j), items[j], r)
+    return r
+
+
+def _sel2(m, a, b):
+    if isinstance(a, int) and isinstance(b, int):
+        return m[a][b]
+    rows = [_sel1(m[i], b) for i in range(3)]
+    return _sel1(rows, a)
+
+
+def from_rotvec_matrix(vec):
+    """spec-level access to the uninterpreted Rodrigues map (for lemma instances in contracts)"""
+    args = [V.lift(V.to_real(x) if is_sym(x) else Fraction(x)) for x in vec]
+    return [[Sym(_RV[a][b](*args)) for b in range(3)] for a in range(3)]
 
 
 def register(REG):
-    class _RotNS:
-        _pyvc_native = True
-        identity = staticmethod(RotV.identity)
-        from_matrix = staticmethod(RotV.from_matrix)
-    REG["scipy.spatial.transform.Rotation"] = _RotNS
+    REG["scipy.spatial.transform.Rotation"] = RotV
